@@ -2,7 +2,7 @@
 """(Re)generate /verif/MANIFEST.json from the table below. Run after adding a check."""
 import json, os
 VERIF = os.path.dirname(os.path.dirname(os.path.abspath(__file__)))
-BASE_OFF = "cd /repo && /venv/bin/python -m pytest -ra -q -p no:cacheprovider --timeout=900 --continue-on-collection-errors thejoker"
+BASE_OFF = "cd /repo && /venv/bin/python -m pytest -ra -q -p no:cacheprovider --timeout=900 --continue-on-collection-errors"
 
 CHECKS = {
  "C16": dict(
@@ -15,6 +15,28 @@ CHECKS = {
    technique="symbolic execution of the real Python source + z3 (LIA), counterexamples replayed on the real build; CrossHair cross-check",
    ref="3/C16"),
 }
+CHECKS["C02"] = dict(
+   text="Bounded symbolic model checking of the real rejection step: rejection_sample_inmem, rejection_sample_helper (file name and JokerSamples-through-temp-file), "
+        "marginal_ln_likelihood_helper/worker, make_full_samples(+worker), run_worker, batch_tasks, read_batch*, JokerSamples.unpack/pack/write and TheJoker.rejection_sample are executed "
+        "on symbolic libraries (every cell), an UNINTERPRETED likelihood function (all profiles incl. ties), symbolic uniforms, a symbolic shuffle permutation and an unbounded symbolic "
+        "max_posterior_samples; z3 proves on every feasible path that the returned rows are exactly the rule's accepted evaluated rows, in order, n_linear_samples times, truncated correctly. "
+        "Bound: library size N<=4 (quick) / 5 (thorough). Counterexamples are replayed on the real build (real HDF5, recording Generator) against an independent oracle.",
+   note="Trusted: z3, symx explorer, shims by contract (pytables/h5py/tempfile/pool/RNG stream), kernel replaced by LL()/row-copy contract stub (real kernel: C01/C03), reals for floats (replay also at shifted magnitudes), finite likelihoods only (-inf clause not covered), u>0.",
+   technique="symbolic execution of the real Python source (shimmed imports) + z3 (LRA/LIA + UF); sat models replayed on the real build",
+   ref="3/C02")
+CHECKS["C06"] = dict(
+   text="Same harness as C02 with return_logprobs / return_all_logprobs and a symbolic ln_prior column, plus the iterative sampler harness of C14: z3 proves per path that ln_likelihood[k] is LL of exactly the "
+        "k-th returned row and ln_prior[k] the value stored at exactly that library row (through shuffle, truncation, batching, temp-file path), both plain scalar columns, and that the all-logprobs array is LL in evaluation order. N<=4/5.",
+   note="As C02. n_linear_samples>1 with return_logprobs raises in astropy before anything is returned (property silent).",
+   technique="symbolic execution of the real Python source + z3; sat models replayed on the real build",
+   ref="3/C06")
+CHECKS["C14"] = dict(
+   text="The real grow-and-retest loops (iterative_rejection_inmem, iterative_rejection_helper, TheJoker.iterative_rejection_sample) are executed symbolically: every accept decision of every iteration forks, so batch sizes are concrete per path while "
+        "likelihoods/uniforms/shuffle stay symbolic. z3 proves per path: result is a JokerSamples or an exception (never a returned exception object), <= n_requested rows and exactly the first n_requested accepted of the final iteration, "
+        "evaluated rows are the first E<=budget rows of the (shuffled) library each once, too-small library raises, maxiter branch unreachable (unwinding assertion). N<=4/5, n_requested<=2/3.",
+   note="As C02; one injected non-finite likelihood (in-memory) is the modelled failure.",
+   technique="symbolic execution of the real Python loops + z3; sat models replayed on the real build",
+   ref="3/C14")
 NOT_YET = {}
 ALL = ["C%02d" % i for i in range(1, 20)]
 
